@@ -34,7 +34,32 @@ LIVE: Dict[str, Any] = {}  # run-time objects for the liveness probes of C17
 
 
 # ---------------------------------------------------------------------------- values
+class Mask:
+    """A user object whose truth value is NOT derivable from its length (like a numpy array holding one zero,
+    or a mask type): bool(Mask(False, 1)) is False although len() == 1, bool(Mask(True, 0)) is True."""
+
+    def __init__(self, truth: bool, n: int) -> None:
+        self.truth, self.n = bool(truth), int(n)
+
+    def __bool__(self) -> bool:
+        return self.truth
+
+    def __len__(self) -> int:
+        return self.n
+
+    def __eq__(self, other: Any) -> bool:
+        return isinstance(other, Mask) and (self.truth, self.n) == (other.truth, other.n)
+
+    def __hash__(self) -> int:
+        return hash(("Mask", self.truth, self.n))
+
+    def __repr__(self) -> str:
+        return f"Mask({self.truth}, {self.n})"
+
+
 def enc(v: Any) -> Any:
+    if isinstance(v, Mask):
+        return {"M": [v.truth, v.n]}
     if isinstance(v, tuple):
         return {"T": [enc(x) for x in v]}
     if isinstance(v, list):
@@ -46,6 +71,8 @@ def enc(v: Any) -> Any:
 
 def dec(j: Any) -> Any:
     if isinstance(j, dict):
+        if "M" in j:
+            return Mask(j["M"][0], j["M"][1])
         if "T" in j:
             return tuple(dec(x) for x in j["T"])
         if "L" in j:
@@ -82,6 +109,8 @@ def compute(fn: str, spec: Dict[str, Any], site: Optional[str], args: Tuple[Any,
             "a": term(fn + "#a", full, kwargs),
             "b": [term(fn + "#b0", full, kwargs), (term(fn + "#b10", full, kwargs), term(fn + "#b11", full, kwargs))],
         }
+    if kind == "str":
+        return "s" + term(fn, full, kwargs)[1][:4]
     if kind == "int":
         return zlib.crc32(_canon((fn, full, tuple(sorted(kwargs.items())))).encode()) % 6 + 1
     if kind == "id":
